@@ -13,7 +13,8 @@ MANIFEST = {
             "sequences of timer steps and arrivals of copies of the empty ACK and of the server's response message, a CON request sent "
             "from a quiet session concludes at most once and, once the client is quiet, exactly once unless no copy of the response ever "
             "arrived (exactly_once_partial); liveness: under the fairness hypothesis (a response copy is delivered, or no empty ACK is, "
-            "so MAX_RETRANSMIT is exhausted) and a running clock the request has concluded exactly once (concludes_when_quiet_partial); "
+            "so MAX_RETRANSMIT is exhausted) and a running clock the request HAS concluded, for every schedule (never_neither), exactly "
+            "once when no copy arrives after the give-up (concludes_when_quiet_partial); "
             "the piggybacking and the de-duplicating server personalities answer all copies of a request, under every interleaving, with "
             "ONE response message (server_one_response_message); client, network (any loss / duplication / delay of what the peer "
             "transmitted) and server composed in a closed loop: exactly_once_closed_loop_partial, and for piggybacked responses with "
@@ -27,8 +28,8 @@ MANIFEST = {
             "delivered again; the theorems' hypotheses exclude exactly that: the server piggybacks or de-duplicates (then 'one response "
             "message' is a theorem), and for SEPARATE responses no copy arrives after the give-up (SysNoLate / NoLate: does not follow "
             "from delays < ACK_TIMEOUT because the server retransmits its response long after the client's last request copy; for "
-            "piggybacked responses it is proved). Liveness carries D5 (separate response lost on every transmission after the empty "
-            "ACK arrived: the request stays open, d5_neither_witness) as the explicit fairness hypothesis. The closed loop of the "
+            "piggybacked responses it is proved). Liveness (never_neither) is full strength; its explicit fairness hypothesis excludes exactly D5 (separate "
+            "response lost on every transmission after the empty ACK arrived: the request stays open, d5_neither_witness). The closed loop of the "
             "theorems (Sys: logs of transmitted datagrams, any copy deliverable) is an abstraction of the harness event loop Sim.run, "
             "not proved equal to it. Trusted: Lean kernel (+ propext, Classical.choice, Quot.sound), harness/exchange.c + sim_core.h, "
             "generators and oracle, the hand transcription M (checked against the compiled code on the schedules run only).",
@@ -41,7 +42,7 @@ REQUIRED_THEOREMS = ["exactly_once_partial", "response_stops_retransmission", "c
                      "duplicate_not_redelivered", "response_ends_exchange", "late_response_after_nack_witness",
                      "second_response_witness",
                      # liveness, server side condition D2, closed loop + timed argument, whole runs
-                     "concludes_when_quiet_partial", "d5_neither_witness", "server_one_response_message",
+                     "never_neither", "concludes_when_quiet_partial", "d5_neither_witness", "server_one_response_message",
                      "server_without_dedup_witness", "exactly_once_closed_loop_partial", "exactly_once_piggybacked",
                      "exactly_once_piggybacked_default", "run_con_responses_acked", "run_con_response_acked_at",
                      "run_duplicates_not_redelivered"]
